@@ -104,6 +104,15 @@ def apply(schema: MappingSchema, op, colspecs, dialect):
             return norm_value(schema.column_names(exp.to_table(name, dialect=dialect or None)))
         if kind == "names_nf":
             return norm_value(schema.column_names(name, normalize=False))
+        if kind in ("hasq_Foo", "hasu_Foo", "hasq_foo", "typeq_Foo", "typeu_Foo"):
+            # the column given as an Identifier OBJECT, quoted or not (the caches are keyed by the name's text)
+            ident = exp.to_identifier("foo" if kind.endswith("_foo") else "Foo", quoted=kind[3] == "q" if kind.startswith("has") else kind[4] == "q")
+            if kind.startswith("has"):
+                return schema.has_column(name, exp.Column(this=ident))
+            return norm_value(schema.get_column_type(name, exp.Column(this=ident)))
+        if kind in ("names_objq", "names_obju"):
+            # the table given as a Table OBJECT whose identifier carries the quoted flag (not a string to be parsed)
+            return norm_value(schema.column_names(exp.Table(this=exp.to_identifier(name, quoted=kind.endswith("q")))))
         if kind == "has_Foo":
             return schema.has_column(name, "Foo")
         if kind == "has_Foo_nf":
@@ -220,7 +229,8 @@ def alphabet(cfg, quick=None):
         colspecs.append({"Foo": "INT"})
         ci = len(colspecs) - 1
         ops += [("add", "t", ci), ("add", "T", ci), ("add_nf", "t", ci), ("add_nf", "T", ci)]
-        ops += [("look", k, n) for n in ("t", "T") for k in ("has_Foo", "has_Foo_nf", "type_Foo", "names_nf")]
+        ops += [("look", k, n) for n in ("t", "T") for k in ("has_Foo", "has_Foo_nf", "type_Foo", "names_nf", "hasq_Foo", "hasu_Foo", "hasq_foo", "typeq_Foo", "typeu_Foo",
+                                                               "names_objq", "names_obju")]
     return ops, colspecs
 
 
